@@ -6,6 +6,14 @@ def R(pkg, run, quick, thorough, **kw):
     return d
 
 CHECKS = {
+    "C08": {
+        "runs": [
+            R("./proxyproto", "^TestC08Func", {"checks": 30000, "timeout": 300}, {"checks": 300000, "shards": 6, "timeout": 1500}),
+            R("./proxyproto", "^TestC08Conn", {"checks": 4000, "timeout": 300}, {"checks": 40000, "shards": 8, "timeout": 1500}),
+            R("./proxyproto", "^TestC08Exhaustive", {"checks": 1}, {"checks": 1, "timeout": 1500}, tiers=("thorough",)),
+        ],
+        "fuzz": [{"pkg": "./proxyproto", "target": "FuzzC08", "time": "90s", "key": "C08:fuzz"}],
+    },
     "C16": {
         "runs": [
             R("./header", "^TestC16Apply", {"checks": 20000, "timeout": 300}, {"checks": 200000, "shards": 8, "timeout": 1200}),
@@ -24,6 +32,11 @@ CHECKS = {
 LEVELS = {}  # default: exploration
 
 RULES = {
+    "C08": "rapid draws a structured header (v1 TCP4/TCP6/UNKNOWN with pool addresses of minimal..maximal length and 10 mutation kinds; v2 with any command nibble x family byte, address block, TLV tail up to the 2048 limit, oversize declared lengths; raw byte strings with and without signature), "
+           "a payload chosen to expose over-reads (starts with CRLF, looks like another header), an optional truncation offset (EOF or stall), cut points biased to the parser's optimistic-read offsets (13/16/22/24/32, header end +-1) or byte-wise, and 0-3 extra concurrent callers; "
+           "run at function level (ReadHeader over a reader that returns exactly the segments) and at connection level (proxyproto.Listener over net.Pipe or loopback TCP, with and without connfu). "
+           "Expectation class (addr/local/either/reject/soft) is computed from the structure, never by parsing. Non-trivial = header split across segments, or malformed, or accept-or-reject class, or v2 with TLVs, or a v1 line whose length is not the parser's assumed minimum. Distinct = distinct (level, header bytes, cuts, truncation, payload length). "
+           "thorough adds the exhaustive 16 x 256 command x family enumeration at 4 body lengths and a native fuzz campaign.",
     "C16": "three rapid properties: (Apply) a list of 1-6 grammar rules (all five actions; names from a pool of colliding spellings such as X-Foo/x-foo/X-FOO/X-Foo-Bar/X-) "
            "applied to a header map built from 0-7 wire fields, compared after every rule with a reference interpreter over a case-insensitive multimap with a spelling attribute; "
            "(Parse) grammar strings, grammar strings with CR/LF/NUL/colon/semicolon/star/percent inserted at generated offsets, regex-shaped and arbitrary strings: accepted => token name, no CR/LF in value, action fixed by the syntax, String() re-parses to the same rule; "
@@ -36,6 +49,10 @@ RULES = {
 }
 
 ASSUMPTIONS = {
+    "C08": ["v1 'soft' malformations (port > 65535, leading zeros, double spaces, bare LF) may be accepted or rejected; only the safety clauses are asserted for them",
+            "v2 unassigned commands and PROXY with unspecified/unsupported family may be rejected or accepted; if accepted the socket addresses and the exact payload are required",
+            "header timeout upper bound uses a 2 s tolerance; well-formed cases run with a 10 s header timeout so machine load cannot make them late",
+            "the full-proxy path (X-Forwarded-For at an origin, accept loop survival) is exercised in the lab package (TestC08Proxy)"],
     "C16": ["header maps handed to the rules have canonical keys (what net/http's reader produces); non-canonical keys arise only through % rules",
             "when a name is spread over several differently spelt keys (only after % followed by add) value order across keys is not asserted, only the multiset",
             "dispatch by message kind (request / CONNECT / response) is exercised through the full proxy in C01/C02 lab runs, not here"],
@@ -47,6 +64,11 @@ ASSUMPTIONS = {
 # MANIFEST texts
 
 META = {
+    "C08": {
+        "technique": "property-based testing (rapid) with structure-derived expectations at function and connection level over exactly controlled segmentations; exhaustive command x family enumeration and native byte-level fuzzing in the thorough tier",
+        "text": "Every generated header is classified from its structure (well-formed with addresses / local / accept-or-reject / must-reject) and run through ReadHeader and through a real proxyproto.Listener with concurrent RemoteAddr/LocalAddr/Read callers; the oracle checks addresses, the exact payload, no leak, no nil address, no panic, failure within the header timeout. 34k cases quick, ~2M thorough + 16x256 enumeration + fuzzing.",
+        "note": "Segment boundaries are exact on net.Pipe and best-effort on loopback TCP; internal goroutine interleavings of concurrent callers are sampled, not enumerated.",
+    },
     "C16": {
         "technique": "property-based testing (rapid): model-based check of rule lists against a reference interpreter; parser acceptance/round-trip properties over grammar, mutated and arbitrary strings; native fuzzing of the parser in the thorough tier",
         "text": "Reference-model comparison after every rule of generated rule lists (60k cases quick, millions thorough), plus parser legality and print/parse round trip over hostile strings. Decides the rule semantics and parser clauses of the property at function level.",
